@@ -32,6 +32,13 @@ AllWF(orgs) == \A i \in DOMAIN orgs : WellFormed(orgs[i].g) /\ orgs[i].gok
 (* ---- C03 on a population ---- *)
 AllInns(orgs) == UNION { Inns(orgs[i].g) : i \in DOMAIN orgs }
 AllNodes(orgs) == UNION { NodeIds(orgs[i].g) : i \in DOMAIN orgs }
+\* modules hold numbers of their own: the innovation number of the control gene and the id of its control node
+ModInns(g) == { g.mods[i].inn : i \in DOMAIN g.mods }
+ModNodes(g) == { g.mods[i].nid : i \in DOMAIN g.mods }
+AllModInns(orgs) == UNION { ModInns(orgs[i].g) : i \in DOMAIN orgs }
+AllModNodes(orgs) == UNION { ModNodes(orgs[i].g) : i \in DOMAIN orgs }
+\* a number held by a module never also denotes a connection, a control node id never an ordinary node
+ModulesApart(orgs) == AllInns(orgs) \cap AllModInns(orgs) = {} /\ AllNodes(orgs) \cap AllModNodes(orgs) = {}
 KeysOf(orgs, n) == { Key(GeneOf(orgs[i].g, n)) : i \in { j \in DOMAIN orgs : n \in Inns(orgs[j].g) } }
 RolesOf(orgs, n) == { RoleOf(orgs[i].g, n) : i \in { j \in DOMAIN orgs : n \in NodeIds(orgs[j].g) } }
 OneMeaning(orgs) ==
@@ -48,8 +55,8 @@ Learn(orgs) ==
                      IF n \in DOMAIN meaning THEN meaning[n] ELSE CHOOSE k \in KeysOf(orgs, n) : TRUE]
     /\ roles' = [n \in DOMAIN roles \cup AllNodes(orgs) |->
                      IF n \in DOMAIN roles THEN roles[n] ELSE CHOOSE k \in RolesOf(orgs, n) : TRUE]
-    /\ maxInn' = MaxOf({maxInn} \cup AllInns(orgs))
-    /\ maxNode' = MaxOf({maxNode} \cup AllNodes(orgs))
+    /\ maxInn' = MaxOf({maxInn} \cup AllInns(orgs) \cup AllModInns(orgs))
+    /\ maxNode' = MaxOf({maxNode} \cup AllNodes(orgs) \cup AllModNodes(orgs))
 (* ---- C06: no two genomes of a population share a mutable object ---- *)
 DisjointCells(orgs) == Cardinality(UNION { Cells(orgs[i].g) : i \in DOMAIN orgs })
                          = SumSeq([i \in DOMAIN orgs |-> Cardinality(Cells(orgs[i].g))])
@@ -99,7 +106,7 @@ DoInit(e) ==
     /\ cur' = Snapshot(e)
     /\ meaning' = [n \in AllInns(e.orgs) |-> CHOOSE k \in KeysOf(e.orgs, n) : TRUE]
     /\ roles' = [n \in AllNodes(e.orgs) |-> CHOOSE k \in RolesOf(e.orgs, n) : TRUE]
-    /\ maxInn' = MaxOf({0} \cup AllInns(e.orgs)) /\ maxNode' = MaxOf({0} \cup AllNodes(e.orgs))
+    /\ maxInn' = MaxOf({0} \cup AllInns(e.orgs) \cup AllModInns(e.orgs)) /\ maxNode' = MaxOf({0} \cup AllNodes(e.orgs) \cup AllModNodes(e.orgs))
     /\ maxSpecies' = MaxOf({0, e.lastSpecies} \cup SpIds(e.species))
 
 DoEpoch(e) ==
@@ -117,6 +124,7 @@ DoEpoch(e) ==
             \cup F(AllWF(e.orgs), "C01:genome of the new generation not well-formed / not expressible")
             \cup F(cur.orgs # <<>> => \A i \in DOMAIN e.orgs : Retains(e.orgs[i].g, cur.orgs[1].g), "C01:sensor or output node of the ancestors lost")
             \cup F(OneMeaning(e.orgs), "C03:number with two meanings")
+            \cup F(ModulesApart(e.orgs), "C03:a number held by a module (control gene / control node) also denotes a connection / an ordinary node")
             \cup F(Fresh(e.orgs), "C03:issued number not larger than all held before")
             \cup F(e.seqexec => SameGenSameNumber(e.orgs), "C03:identical innovation of this generation got different numbers")
             \cup F(e.reglen = 0, "C03:innovation record not forgotten at the end of the generation")
